@@ -1029,6 +1029,14 @@ theorem importKeys_total (b : Bytes) : ∃ res, importKeys b = .done res := by
 
 /-! ### the wire form of a private key (ParsePrivateKey ∘ Serialize) -/
 
+theorem parsePrivateKey_of (b r0 r1 r2 r3 r4 r5 : Bytes) (p q g y x : Nat)
+    (h0 : extractShort b = some (0, r0)) (h1 : extractMPI r0 = some (p, r1)) (h2 : extractMPI r1 = some (q, r2))
+    (h3 : extractMPI r2 = some (g, r3)) (h4 : extractMPI r3 = some (y, r4)) (h5 : extractMPI r4 = some (x, r5)) :
+    parsePrivateKey b = (r5, some (⟨p, q, g, y⟩, x)) := by
+  unfold parsePrivateKey parsePublicKey
+  simp only [h0, h1, h2, h3, h4, h5]
+  simp
+
 /-- **C17, DSA private key wire form.**  `ParsePrivateKey(key.Serialize() ++ rest)` gives the key and `rest`. -/
 theorem parsePrivateKey_roundtrip (pk : DsaPub) (x : Nat) (rest : Bytes)
     (h : mpisFit [pk.p, pk.q, pk.g, pk.y, x]) :
@@ -1038,23 +1046,10 @@ theorem parsePrivateKey_roundtrip (pk : DsaPub) (x : Nat) (rest : Bytes)
         (appendMPI [] x ++ rest))))) := by
     simp [DsaPub.serialize, appendMPI, appendData]
   rw [e]
-  have hp := extractMPI_append pk.p (appendMPI [] pk.q ++ (appendMPI [] pk.g ++ (appendMPI [] pk.y ++
-    (appendMPI [] x ++ rest)))) (h pk.p (by simp))
-  have hq := extractMPI_append pk.q (appendMPI [] pk.g ++ (appendMPI [] pk.y ++ (appendMPI [] x ++ rest)))
-    (h pk.q (by simp))
-  have hg := extractMPI_append pk.g (appendMPI [] pk.y ++ (appendMPI [] x ++ rest)) (h pk.g (by simp))
-  have hy := extractMPI_append pk.y (appendMPI [] x ++ rest) (h pk.y (by simp))
-  have hx := extractMPI_append x rest (h x (by simp))
-  have hpub : parsePublicKey ([0, 0] ++ (appendMPI [] pk.p ++ (appendMPI [] pk.q ++ (appendMPI [] pk.g ++
-      (appendMPI [] pk.y ++ (appendMPI [] x ++ rest)))))) = some (pk, appendMPI [] x ++ rest) := by
-    unfold parsePublicKey
-    simp only [List.cons_append, List.nil_append, extractShort, de16]
-    simp only [hp, hq, hg, hy]
-    rfl
-  unfold parsePrivateKey
-  rw [hpub]
-  simp only [List.cons_append, List.nil_append, extractShort, de16, hx]
-  simp
+  exact parsePrivateKey_of _ _ _ _ _ _ _ _ _ _ _ _ rfl
+    (extractMPI_append _ _ (h pk.p (by simp))) (extractMPI_append _ _ (h pk.q (by simp)))
+    (extractMPI_append _ _ (h pk.g (by simp))) (extractMPI_append _ _ (h pk.y (by simp)))
+    (extractMPI_append _ _ (h x (by simp)))
 
 /-- the same for a key read from a key file whose five numbers are present and non-negative -/
 theorem serialize_parsePrivateKey (p q g y x : Nat) (rest : Bytes) (h : mpisFit [p, q, g, y, x]) :
@@ -1062,5 +1057,21 @@ theorem serialize_parsePrivateKey (p q g y x : Nat) (rest : Bytes) (h : mpisFit 
       parsePrivateKey (b ++ rest) = (rest, some (⟨p, q, g, y⟩, x)) := by
   refine ⟨appendMPI (DsaPub.serialize ⟨p, q, g, y⟩) x, ?_, parsePrivateKey_roundtrip ⟨p, q, g, y⟩ x rest h⟩
   simp [DsaPriv.serialize, DsaPriv.pubSerialize]
+
+/-! ### non-vacuity -/
+
+/-- a name with spaces, parentheses, a hash mark and a newline; zero, a negative number, the nil
+    pointer, numbers with odd and even digit counts -/
+example : (⟨strBytes "a b(c)#\n", strBytes "prpl-jabber", ⟨some 0, some (-5), none, some 255, some 4096⟩⟩ : Account).wellFormed = true := by
+  decide
+
+example : (⟨[], strBytes "x", {}⟩ : Account).wellFormed = true := by decide
+
+-- outside the precondition the round trip does fail: a double quote in the name ends the string early
+set_option maxRecDepth 20000 in
+example : importKeys (exportKeys [⟨strBytes "a\"b", strBytes "x", {}⟩]) = .done none := by decide
+
+example : parseBigHex (fmtX (some 0)) = some 0 := parseBigHex_fmtX _
+example : fmtX (some 0) = [0x30] := by decide
 
 end Otr
